@@ -671,7 +671,7 @@ class SuperSpace(Space):
     def __eq__(self, other) -> bool:
         return (
             self is other
-            or self.oper == other
+            or (isinstance(other, Dimensions) and self.oper == other)
             or (
                 type(other) is type(self)
                 and self.oper == other.oper
